@@ -215,8 +215,8 @@ impl<'a, 'tcx> Cx<'a, 'tcx> {
     match c.const_ {
       mir::Const::Unevaluated(uv, _) => {
         let _ = write!(s, ",\"item\":{}", esc(&path_str(tcx, uv.def)));
-        if uv.promoted.is_some() {
-          s.push_str(",\"promoted\":true");
+        if let Some(pidx) = uv.promoted {
+          let _ = write!(s, ",\"promoted\":{}", pidx.as_u32());
         }
       }
       _ => {}
@@ -589,14 +589,68 @@ fn capture_one<'tcx>(tcx: TyCtxt<'tcx>, def: LocalDefId) {
   if !tcx.is_mir_available(def.to_def_id()) && !tcx.hir_maybe_body_owned_by(def).is_some() {
     return;
   }
-  let (steal, _promoted) = tcx.mir_promoted(def);
+  let (steal, promoted) = tcx.mir_promoted(def);
   if steal.is_stolen() {
     eprintln!("verif-driver: mir_promoted already stolen for {}", path_str(tcx, def.to_def_id()));
     return;
   }
   let body = steal.borrow();
   let cx = Cx { tcx, body: &body, def: def.to_def_id() };
-  let j = cx.body_json();
+  let mut j = cx.body_json();
+  // promoted constants: for each, the const items and integer literals it is built from
+  if !promoted.is_stolen() {
+    let pb = promoted.borrow();
+    let mut ps = String::from(",\"promoted\":[");
+    for (pi, (_idx, pbody)) in pb.iter_enumerated().enumerate() {
+      if pi > 0 {
+        ps.push(',');
+      }
+      let mut items: Vec<String> = Vec::new();
+      let mut ints: Vec<String> = Vec::new();
+      for bb in pbody.basic_blocks.iter() {
+        for st in bb.statements.iter() {
+          if let StatementKind::Assign(b) = &st.kind {
+            let mut visit = |o: &Operand<'tcx>| {
+              if let Operand::Constant(c) = o {
+                if let mir::Const::Unevaluated(uv, _) = c.const_ {
+                  items.push(esc(&path_str(tcx, uv.def)));
+                }
+                let ty = c.const_.ty();
+                if ty.is_integral() || ty.is_bool() || ty.is_char() {
+                  let te = ty::TypingEnv::post_analysis(tcx, def.to_def_id());
+                  if let Some(si) = c.const_.try_eval_scalar_int(tcx, te) {
+                    let sz = si.size();
+                    let bits = si.to_bits(sz);
+                    let v: i128 = if ty.is_signed() { sz.sign_extend(bits) as i128 } else { bits as i128 };
+                    ints.push(format!("{}", v));
+                  }
+                }
+              }
+            };
+            match &b.1 {
+              Rvalue::Use(o, _) | Rvalue::Repeat(o, _) | Rvalue::Cast(_, o, _) | Rvalue::UnaryOp(_, o) => visit(o),
+              Rvalue::BinaryOp(_, ab) => {
+                visit(&ab.0);
+                visit(&ab.1);
+              }
+              Rvalue::Aggregate(_, ops) => {
+                for o in ops.iter() {
+                  visit(o);
+                }
+              }
+              _ => {}
+            }
+          }
+        }
+      }
+      let _ = write!(ps, "{{\"items\":[{}],\"ints\":[{}]}}", items.join(","), ints.join(","));
+    }
+    ps.push(']');
+    // splice before the closing brace of the body object
+    j.pop();
+    j.push_str(&ps);
+    j.push('}');
+  }
   BODIES.lock().unwrap().push(j);
 }
 
